@@ -16,7 +16,8 @@ from icalendar.prop import vText, vCategory
 
 CORE = ("\\", "n", "N", ";", ",", ":", '"', "%", "2", "C", "\r", "\n", " ", "a")
 CORE8 = ("\\", "n", ";", ",", ":", "%", "\n", "a")
-POOL = ("\t", "\x00", "\x85", "\u2028", "é", "\U0001F600", "\x7f", "3", "B", "5", "A", "=", "'", "^", "\u2029", "\x0b")
+POOL = ("\t", "\x00", "\x85", "\u2028", "é", "\U0001F600", "\x7f", "3", "B", "5", "A", "=", "'", "^", "\u2029", "\x0b",
+        "\u00a0", "\u0301", "\ufeff", "\u200b")
 PROP_NAMES = ("SUMMARY", "DESCRIPTION", "X-TEXT")
 SHAPES = ("s,x", "x,s", "s", "s,s")
 
@@ -203,7 +204,7 @@ def run(ctx):
     ctx.rule = (f"E-enum: every string over the 14-symbol critical alphabet with |s|<={k} on all paths (codec str+bytes; "
                 f"property SUMMARY/DESCRIPTION/X-TEXT via Event.add->to_ical->from_ical; CATEGORIES item in shapes "
                 f"{SHAPES}); codec and SUMMARY additionally up to |s|<={kc}; plus core-8 symbols joined by "
-                f"{len(chosen)} pair(s) of 16 other characters (seed-rotated in quick, all 120 pairs in thorough) at "
+                f"{len(chosen)} pair(s) of 20 other characters incl. non-ASCII blanks, a combining mark, U+FEFF and U+200B (seed-rotated in quick, all 190 pairs in thorough) at "
                 "|s|<=4. non-trivial = s contains a character that escaping changes.")
     ctx.bounds = {"alphabet": [repr(c) for c in CORE], "k_all_paths": k, "k_codec_summary": kc,
                   "extra_pairs": [[repr(a), repr(b)] for a, b in chosen[:3]], "n_extra_pairs": len(chosen)}
